@@ -1,0 +1,13 @@
+//go:build verif
+
+// Contracts for the deductive checker in /verif (read only with -tags verif).
+
+package cfca
+
+//@ func NewSM4CBCBlockMode property C13
+//@   ensures err == nil ==> result0 != nil && MBS(id(result0)) == 16
+//@   heapnonnil
+//@   modifies everything
+//@ func DecryptBySM4CBC property C13,C14
+//@   heapnonnil
+//@   modifies everything
